@@ -248,6 +248,9 @@ pub fn config_by_name(name: &str) -> Option<SpaceCfg> {
         // same structure alphabet over the names {a, ab}: one name is a string prefix of the other, so
         // string-level (instead of component-level) path comparisons inside rivia become visible
         "Ap" => base_cfg(name, ops_structure(true).iter().map(prefix_names).collect(), n, 2),
+        // the names {a, a.b}: the stem of one name is the other name, so a stem/extension helper used where the
+        // whole final component is meant (name vs base) makes two different entries collide
+        "Ad" => base_cfg(name, ops_structure(true).iter().map(dotted_names).collect(), n, 2),
         "B" => {
             let mut c = base_cfg(name, ops_content(), n, 1);
             c.max_content = 3;
@@ -268,6 +271,11 @@ pub fn config_by_name(name: &str) -> Option<SpaceCfg> {
         },
         _ => return None,
     })
+}
+
+/// rename b -> a.b in every path argument
+pub fn dotted_names(op: &Op) -> Op {
+    op.map_paths(|p, _| p.replace('b', "a.b"))
 }
 
 /// rename b -> ab in every path argument
@@ -324,6 +332,7 @@ fn single_target(op: &Op) -> bool {
 pub struct C01Obs {
     pub queries: Vec<Op>,
     pub queries_prefix_names: Vec<Op>,
+    pub queries_dotted_names: Vec<Op>,
     pub compared: AtomicU64,
     pub skipped: AtomicU64,
     pub queries_run: AtomicU64,
@@ -336,6 +345,7 @@ impl C01Obs {
         C01Obs {
             queries: query_ops(),
             queries_prefix_names: query_ops().iter().map(prefix_names).collect(),
+            queries_dotted_names: query_ops().iter().map(dotted_names).collect(),
             compared: AtomicU64::new(0),
             skipped: AtomicU64::new(0),
             queries_run: AtomicU64::new(0),
@@ -391,7 +401,13 @@ impl Observer for C01Obs {
                 sm.push(J::obj([("history", J::s(sv.space.history_text(sv.idx))), ("tree", J::s(st.tree.render())), ("cwd", J::s(&st.cwd))]));
             }
         }
-        let queries = if sv.space.cfg.name.starts_with("Ap-") { &self.queries_prefix_names } else { &self.queries };
+        let queries = if sv.space.cfg.name.starts_with("Ap-") {
+            &self.queries_prefix_names
+        } else if sv.space.cfg.name.starts_with("Ad-") {
+            &self.queries_dotted_names
+        } else {
+            &self.queries
+        };
         for q in queries {
             let out = apply(sv.fs, q);
             self.queries_run.fetch_add(1, Ordering::Relaxed);
@@ -432,8 +448,8 @@ pub fn stats_json(name: &str, st: &SpaceStats) -> J {
 
 pub fn tier_configs(tier: Tier) -> Vec<&'static str> {
     match tier {
-        Tier::Quick => vec!["A-3", "Ap-2", "C-2", "B-2", "D-3"],
-        Tier::Thorough => vec!["A-4", "Ap-3", "C-3", "B-2", "D-3"],
+        Tier::Quick => vec!["A-3", "Ap-2", "Ad-2", "C-2", "B-2", "D-3"],
+        Tier::Thorough => vec!["A-4", "Ap-3", "Ad-3", "C-3", "B-2", "D-3"],
     }
 }
 
